@@ -194,6 +194,53 @@ def r16_6(ctx):
     ctx.ob("R16.6", "declarations-are-recorded-in-the-own-scope", bad is None and k >= 5, bad or "%d accepted declarations, each one insert: Some(ns) or the un-binding None" % k, "xml5ever tree_builder NamespaceMap::insert_ns")
 
 
+def r16_9(ctx):
+    """the element stack of the XML tree builder, which carries the namespace scopes (R16.1): an end tag closes only if an element
+    with the same EXPANDED name (namespace and local name) is open - then everything above it and the element itself go, nothing
+    more; a start tag's element is created from the bound name, appended to the current node and pushed; an empty-element tag's
+    element is appended and NOT pushed (its scope ends at once)"""
+    key, pcs = nfq.cells(ctx, TB, "::close_tag")
+    bad = None
+    seen = set()
+    for pc in nfq.feasible(pcs):
+        acts = [(a, tuple(str(x) for x in args)) for a, args in pc["actions"]]
+        names = [a for a, _ in acts]
+        opn = [v for g, v in pc["guards"].items() if g.startswith("self.tag_in_open_elems(p1)")]
+        pops = [(a, args) for a, args in acts if a in ("self.pop_until", "self.pop", "self.open_elems.pop", "self.open_elems.truncate")]
+        if not opn:
+            bad = "the end tag is handled without asking whether a matching element is open"
+        elif opn[0]:
+            seen.add("open")
+            if [a for a, _ in pops] != ["self.pop_until", "self.pop"] or not re.fullmatch(r"\|\.\.\|\{?\((a1 == p1\.name\.expanded\(\)|p1\.name\.expanded\(\) == a1)\)\}?", pops[0][1][0]):
+                bad = "a matching open element: pops are %s; everything above the element with the tag's expanded name goes, then that element - the namespace scopes follow the element stack, so one pop too many or too few shifts every later prefix lookup" % (pops,)
+        else:
+            seen.add("not-open")
+            if pops:
+                bad = "no matching element is open but %s is popped" % [a for a, _ in pops]
+    key, pcs = nfq.cells(ctx, TB, "::tag_in_open_elems")
+    for pc in nfq.feasible(pcs):
+        for g in pc["guards"]:
+            if "self.open_elems" in g and not re.search(r"elem_name\(a1\)\.expanded\(\) == p1\.name\.expanded\(\)|p1\.name\.expanded\(\) == self\.sink\.elem_name\(a1\)\.expanded\(\)", g):
+                bad = "tag_in_open_elems compares %s, not the expanded names (namespace and local name)" % g[-80:]
+    ctx.ob("R16.9", "end-tag-closes-by-expanded-name", bad is None and seen == {"open", "not-open"}, bad or "matching expanded name open -> pop until it, then pop it; otherwise nothing", "xml5ever tree_builder close_tag")
+    bad = None
+    for fn, tail in (("::insert_tag", "self.add_to_open_elems"), ("::append_tag", "self.sink.pop")):
+        key, pcs = nfq.cells(ctx, TB, fn)
+        for pc in nfq.feasible(pcs):
+            acts = [(a, tuple(str(x) for x in args)) for a, args in pc["actions"]]
+            el = "create_element(self.sink,p1.name,p1.attrs)"
+            want = [("call create_element", ("self.sink", "p1.name", "p1.attrs")), ("self.insert_appropriately", ("AppendNode(%s)" % el,)), (tail, (el,))]
+            if acts != want:
+                bad = "%s does %s; expected: create the element from the tag's (bound) name and attributes, append it to the current node, then %s" % (
+                    fn[2:], [a for a, _ in acts], "push it on the stack of open elements" if fn == "::insert_tag" else "tell the sink it is complete - without pushing it")
+    key, pcs = nfq.cells(ctx, TB, "::insert_appropriately")
+    for pc in nfq.feasible(pcs):
+        ap = [tuple(str(x) for x in args) for a, args in pc["actions"] if a == "self.sink.append"]
+        if len(ap) != 1 or ap[0][1] != "p1" or not re.search(r"current_node\(", ap[0][0]):
+            bad = "insert_appropriately appends %s" % (ap,)
+    ctx.ob("R16.9", "start-and-empty-tags", bad is None, bad or "start tag: created, appended to the current node, pushed; empty tag: created, appended, completed, not pushed", "xml5ever tree_builder insert_tag / append_tag")
+
+
 def r16_8(ctx):
     """bind_attr_qname answers 'drop this attribute' (false) only when check_duplicate_attr found an earlier attribute with the
     same expanded name; in particular an attribute whose prefix is not bound is reported and KEPT"""
@@ -217,6 +264,8 @@ def r16_8(ctx):
 
 
 def run(ctx):
+    ctx.rule("R16.9", "the element stack that carries the namespace scopes: end tags close by expanded name, start tags push, empty tags do not")
+    ctx.guard("R16.9", "element-stack", lambda: r16_9(ctx))
     ctx.rule("R16.8", "an attribute is dropped only as a duplicate by expanded name - never because its prefix is unbound")
     ctx.guard("R16.8", "drop-only-duplicates", lambda: r16_8(ctx))
     ctx.rule("R16.7", "the tokenizer's finish_attribute empties the value buffer on every path: a dropped duplicate's value never leaks into the next (possibly xmlns) attribute")
